@@ -217,11 +217,40 @@ type classifier struct {
 	resets   map[string]map[string]bool
 	closure  bool // the body is a closure called once per element: `return` only ends the element
 	lo, hi   token.Pos
-	spans    [][2]token.Pos // closures defined outside the body but run inside it: their own variables are temporaries too
-	summary  bool           // the body is a whole function (effect summary of a helper)
+	spans    [][2]token.Pos        // closures defined outside the body but run inside it: their own variables are temporaries too
+	summary  bool                  // the body is a whole function (effect summary of a helper)
+	local    map[types.Object]bool // call-local objects of f (local.go)
+	adopted  map[types.Object]bool // (U2) buffers declared outside the body that the body resets first
+	recvObj  types.Object          // summary of a receiver-confined method: its receiver
+	tag      string                // "recv:" while an effect through an owned path of recvObj is recorded
 }
 
-func (c *classifier) eff(s string) { c.effects[s] = true }
+func (c *classifier) eff(s string) { c.effects[c.tag+s] = true }
+
+// localObj: (U1) a call-local object with one incarnation per element.
+func (c *classifier) localObj(o types.Object) bool {
+	return o != nil && c.local[o] && c.declaredInside(o)
+}
+
+// pathTag: the store through e is local ("local"), goes through an owned path of the receiver of a
+// receiver-confined method ("recv:"), or is an effect like any other ("").
+func (c *classifier) pathTag(e ast.Expr) string {
+	id, _ := rootIdent(e)
+	if id == nil {
+		return ""
+	}
+	o := c.obj(id)
+	if o == nil || !ownedPath(c.info, e, o, true) {
+		return ""
+	}
+	if c.localObj(o) {
+		return "local"
+	}
+	if c.recvObj != nil && o == c.recvObj {
+		return "recv:"
+	}
+	return ""
+}
 
 func (c *classifier) obj(id *ast.Ident) types.Object {
 	if o := c.info.Defs[id]; o != nil {
@@ -234,7 +263,7 @@ func (c *classifier) declaredInside(o types.Object) bool {
 	if o == nil || c.loopVars[o] {
 		return false
 	}
-	if o.Pos() >= c.lo && o.Pos() < c.hi {
+	if (o.Pos() >= c.lo && o.Pos() < c.hi) || c.adopted[o] {
 		return true
 	}
 	for _, sp := range c.spans {
@@ -355,11 +384,11 @@ func (c *classifier) call(x *ast.CallExpr, stmt bool) {
 				}
 			}
 		}
-		c.callInternal(g)
+		c.callInternal(g, c.recvMode(x, g))
 	case "iface":
 		for _, g := range c.a.fns {
 			if g.decl.Recv != nil && g.decl.Name.Name == o.Name() {
-				c.callInternal(g)
+				c.callInternal(g, "")
 			}
 		}
 	case "external":
@@ -372,8 +401,37 @@ func (c *classifier) call(x *ast.CallExpr, stmt bool) {
 			return
 		}
 		if sel, ok := ast.Unparen(x.Fun).(*ast.SelectorExpr); ok {
-			if id, _ := rootIdent(sel.X); id != nil && c.declaredInside(c.obj(id)) && c.fresh[c.obj(id)] {
-				return // method of a value created in the body
+			if id, _ := rootIdent(sel.X); id != nil {
+				ob := c.obj(id)
+				inBody := c.declaredInside(ob) && c.fresh[ob]
+				if isBufferType(c.info.TypeOf(sel.X)) {
+					// the listed buffer types: only the methods that touch the receiver alone
+					if bufMethods[sel.Sel.Name] {
+						if inBody {
+							return
+						}
+						switch c.pathTag(sel.X) {
+						case "local":
+							return
+						case "recv:":
+							c.calls[name] = true
+							c.effects["recv:call:"+name] = true
+							return
+						}
+					}
+				} else if inBody {
+					return // method of a value created in the body
+				}
+			}
+		}
+		if writerFuncs[name] && len(x.Args) > 0 {
+			// printing into a call-local buffer of the body
+			w := ast.Unparen(x.Args[0])
+			if u, ok := w.(*ast.UnaryExpr); ok && u.Op == token.AND {
+				w = ast.Unparen(u.X)
+			}
+			if id, ok := w.(*ast.Ident); ok && isBufferType(c.info.TypeOf(id)) && c.localObj(c.obj(id)) {
+				return
 			}
 		}
 		c.calls[name] = true
@@ -386,7 +444,10 @@ func (c *classifier) call(x *ast.CallExpr, stmt bool) {
 
 // callInternal: a pure callee leaves no trace; an exported one is named (its name is stable);
 // an unexported helper contributes what its own body does.
-func (c *classifier) callInternal(g *fn) {
+// mode: "local" the call is `v.m(…)` on a call-local object of the body and m is receiver-confined
+// (what m does to its receiver is no effect), "recv" the same on the receiver of the confined
+// method that is being summarised (stays tagged), "" anything else.
+func (c *classifier) callInternal(g *fn, mode string) {
 	if !g.impure || c.a.pureOK[g.qname()] {
 		return
 	}
@@ -394,13 +455,55 @@ func (c *classifier) callInternal(g *fn) {
 		return
 	}
 	c.calls[g.qname()] = true
-	if exportedFn(g) {
+	if exportedFn(g) && mode == "" {
 		c.eff("call:" + g.qname())
 		return
 	}
 	for _, e := range c.a.summaryOf(g) {
+		if strings.HasPrefix(e, "recv:") {
+			switch mode {
+			case "local":
+			case "recv":
+				c.effects[e] = true
+			default:
+				c.eff(strings.TrimPrefix(e, "recv:"))
+			}
+			continue
+		}
 		c.eff(e)
 	}
+}
+
+// recvMode: see callInternal.
+func (c *classifier) recvMode(x *ast.CallExpr, g *fn) string {
+	if !c.a.confined[g] {
+		return ""
+	}
+	sel, ok := ast.Unparen(x.Fun).(*ast.SelectorExpr)
+	if !ok {
+		return ""
+	}
+	if s := c.info.Selections[sel]; s == nil || s.Kind() != types.MethodVal || len(s.Index()) != 1 {
+		return ""
+	}
+	// the receiver expression: the object itself or a struct-valued field on an owned path
+	if t := c.info.TypeOf(sel.X); t != nil {
+		if _, isPtr := t.Underlying().(*types.Pointer); isPtr {
+			if _, isId := ast.Unparen(sel.X).(*ast.Ident); !isId {
+				return ""
+			}
+		}
+	}
+	if _, isIx := ast.Unparen(sel.X).(*ast.IndexExpr); isIx {
+		return ""
+	}
+	switch c.pathTag(sel.X) {
+	case "local":
+		return "local"
+	case "recv:":
+		return "recv"
+	}
+	return ""
 }
 
 // summaryOf: the effects of a whole function body, its parameters standing for the element.
@@ -430,6 +533,8 @@ func (a *analyzer) summaryOf(g *fn) []string {
 		}
 	}
 	c.fresh = a.freshLocals(g, g.decl.Body, a.fresh)
+	c.local = a.callLocals(g)
+	c.recvObj = a.recvObj[g] // nil unless g is receiver-confined
 	c.block(g.decl.Body, 0)
 	var out []string
 	for e := range c.effects {
@@ -465,6 +570,15 @@ func (c *classifier) assign(s *ast.AssignStmt) {
 			rhs = s.Rhs[i]
 		}
 		lhs = ast.Unparen(lhs)
+		c.tag = ""
+		if _, isId := lhs.(*ast.Ident); !isId {
+			switch c.pathTag(lhs) {
+			case "local":
+				continue // (U1) a store into a call-local object of the body
+			case "recv:":
+				c.tag = "recv:"
+			}
+		}
 		switch l := lhs.(type) {
 		case *ast.Ident:
 			if l.Name == "_" {
@@ -579,6 +693,7 @@ func (c *classifier) assign(s *ast.AssignStmt) {
 			c.eff("other:store")
 		}
 	}
+	c.tag = ""
 	for _, r := range s.Rhs {
 		c.expr(r)
 	}
@@ -683,6 +798,8 @@ func (c *classifier) stmt(s ast.Stmt, depth int) {
 		case id != nil && c.declaredInside(c.obj(id)):
 		case id != nil && !deep:
 			c.eff("count")
+		case c.pathTag(x.X) == "recv:":
+			c.effects["recv:count"] = true
 		case isMapType(func() types.Type {
 			if ix, ok := ast.Unparen(x.X).(*ast.IndexExpr); ok {
 				return c.info.TypeOf(ix.X)
@@ -870,6 +987,11 @@ func (a *analyzer) classify(s *site, body *ast.BlockStmt, loopVars []types.Objec
 		return true
 	})
 	c.fresh = a.freshLocals(s.f, body, a.fresh)
+	c.local = a.callLocals(s.f)
+	c.adopted = a.adoptBuffers(s.f, body)
+	for o := range c.adopted {
+		c.fresh[o] = true
+	}
 	c.block(body, 0)
 	for field, vals := range c.resets {
 		if len(vals) > 1 {
